@@ -35,10 +35,11 @@ func Register() {
 // worker
 
 type caseData struct {
-	T       *T     `json:"t,omitempty"`
-	Variant string `json:"variant,omitempty"` // set in replays: one triple only
-	Route   string `json:"route,omitempty"`
-	Special string `json:"special,omitempty"`
+	T       *T            `json:"t,omitempty"`
+	Variant string        `json:"variant,omitempty"` // set in replays: one triple only
+	Route   string        `json:"route,omitempty"`
+	Special string        `json:"special,omitempty"`
+	Seq     []seqScenario `json:"seq,omitempty"` // sequence scenarios (seq.go)
 }
 
 type Viol struct {
@@ -523,6 +524,8 @@ func worker(kind string, data json.RawMessage) any {
 					Detail: "script: " + s.Src + "\n" + r.Detail, Case: caseData{Special: s.Name}})
 			}
 		}
+	case len(c.Seq) > 0:
+		runSeqCase(c.Seq, out)
 	case c.T != nil:
 		runType(*c.T, out, c.Variant, c.Route)
 	}
@@ -675,7 +678,7 @@ func plan(d *mon.Driver) []T {
 // driver
 
 func drive(d *mon.Driver, replay string) int {
-	d.Rule = "a case is a Go type (constructor term over bool, sized ints/uints, floats, string, byte, time.Time, interface{}, error, a declared non-empty interface, 34 declared named types incl. time.Duration/time.Month/fs.FileMode, under named/pointer/slice/array/map[string]T/struct/interface; all terms to depth 2, sampled at depth 3, plus structs with 2-4 members) with up to 9 values (zero, inner-zero, empty, typical, min, max, three odd: NaN/Inf/tiny/non-UTF-8/>MaxInt64/located times) sent over every route (global, field-read, field-write, member-read and member-write for structs with several members, param, param-any, param(api), return, return-any, plus a hand-written method-protocol group; script values from the Go value, from a natural script value, and with out-of-range ints). distinct_nontrivial = distinct (exact type-constructor path, route) pairs that were executed and gave a verdict (converted, rejected or failed); for failures the minimal path is in the signature"
+	d.Rule = "a case is a Go type (constructor term over bool, sized ints/uints, floats, string, byte, time.Time, interface{}, error, a declared non-empty interface, 34 declared named types incl. time.Duration/time.Month/fs.FileMode, under named/pointer/slice/array/map[string]T/struct/interface; all terms to depth 2, sampled at depth 3, plus structs with 2-4 members) with up to 9 values (zero, inner-zero, empty, typical, min, max, three odd: NaN/Inf/tiny/non-UTF-8/>MaxInt64/located times) sent over every route (global, field-read, field-write, member-read and member-write for structs with several members, param, param-any, param(api), return, return-any, plus a hand-written method-protocol group and sequence scenarios (seq.go: a script reads and writes members of one Go struct - value struct, *struct, slice, map, nested, interface, *int - while Go code re-points, replaces, nils, swaps or changes them in place, either in a method the script calls or as host code between evaluations sharing one proxy; every enumerated (member, Go change, read path, write) combination plus seed-determined longer mixes); script values from the Go value, from a natural script value, and with out-of-range ints). distinct_nontrivial = distinct (exact type-constructor path, route) pairs that were executed and gave a verdict (converted, rejected or failed); for failures the minimal path is in the signature"
 	d.Assume = []string{
 		"contents are compared after forgetting Go type names, integer widths, pointer-ness (a non-struct pointer is its pointee or nil) and nil-vs-empty for slices and maps; floats are compared by the bits of the float64 value (NaN, -0 included); times by instant, zone offset and location name",
 		"inside interface-typed positions the dynamic Go type cannot be preserved by any conversion (int8 comes back as int64); only the contents are compared there",
@@ -686,6 +689,7 @@ func drive(d *mon.Driver, replay string) int {
 		"a script int outside the range of a narrower Go integer position must be rejected, not changed (kind silent-truncation)",
 		"unsupported kinds (chan, func, complex, non-string map keys, uintptr) are outside the quantifier; they are included only to check that they are rejected with an error and not a panic",
 		"reading a member through a proxy of a nil struct pointer is not a conversion and is not exercised",
+		"sequence scenarios: every access is a full path from the root and is judged against the Go state at that moment (a read must show the current contents and, for a pointer to a struct, wrap the current pointer; a write must be what Go reads at that path afterwards, a refused write must leave it unchanged); member proxies kept in script variables across Go changes, index writes into converted lists/maps and writes through elements of []struct are not exercised (copies by design, not pinned by the statement)",
 	}
 	var cases []mon.Case
 	if replay != "" {
@@ -698,6 +702,9 @@ func drive(d *mon.Driver, replay string) int {
 		if c.Special != "" {
 			kind = "special"
 		}
+		if len(c.Seq) > 0 {
+			kind = "seq"
+		}
 		cases = append(cases, mon.NewCase("replay", kind, c))
 	} else {
 		types := plan(d)
@@ -708,6 +715,18 @@ func drive(d *mon.Driver, replay string) int {
 		}
 		cases = append(cases, mon.NewCase("special", "special", caseData{Special: "*"}))
 		d.Extra("types", len(types))
+		// sequence scenarios: all enumerated ones, plus seed-determined longer mixes
+		scs := enumeratedScenarios()
+		rs := d.Rand("sequences")
+		for i := 0; i < d.N(300, 6000); i++ {
+			scs = append(scs, randomScenario(rs))
+		}
+		d.Extra("sequence_scenarios", len(scs))
+		per := 120
+		for i := 0; i < len(scs); i += per {
+			j := min(i+per, len(scs))
+			cases = append(cases, mon.NewCase(fmt.Sprintf("seq%04d", i/per), "seq", caseData{Seq: scs[i:j]}))
+		}
 	}
 	var all []Viol
 	converted := 0
